@@ -172,24 +172,64 @@ class Gen:
                 flead = " "
             fstart = self.n
             self.emit(flead)
-            names = [r.choice(FILTERS) for _ in range(r.randint(0, 2))]
-            pre = "".join(n_ + ", " for n_ in names)
-            self.emit(pre)
-            fl = r.choice([1, 1, 2])
-            if fl == 1:
-                body, plus = self.pysum(1)
-                self.emit("fl(")
-                cs = self.n
-                self.emit(body + ")")
+            plus_abs = []
+            if r.random() < 0.45:
+                # a multi-line filter list: several filters on several lines, a short first line, and the closing
+                # brace on a line of its own after (long) indentation
+                # (a filter on a new line must start in column 1: the list is parsed as Python statements, an
+                # indented continuation outside brackets is an IndentationError)
+                nfl = r.randint(2, 4)
+                ind = ""
+                for i in range(nfl):
+                    kind = r.choice(["name", "call", "call", "multi"]) if i else r.choice(["name", "short", "call", "shortmulti"])
+                    if kind == "name":
+                        self.emit(r.choice(FILTERS))
+                    elif kind == "short":
+                        self.emit("f(")
+                        cs = self.n
+                        self.emit("1 + 2)")
+                        plus_abs.append(cs + 2)
+                    elif kind == "shortmulti":
+                        self.emit("f(")
+                        cs = self.n
+                        self.emit("1 +" + self.nl + r.choice(["", "   ", "\t"]) + "2 + 3)")
+                        plus_abs += [cs + 2, self.n - 4]
+                    elif kind == "call":
+                        self.emit("fl(")
+                        body, plus = self.pysum(1)
+                        cs = self.emit(body)
+                        plus_abs += [cs + p_ for p_ in plus]
+                        self.emit(")")
+                    else:
+                        self.emit("fl(")
+                        body, plus = self.pysum(2, cont_indent=r.choice(["", "   ", "        "]))
+                        cs = self.emit(body)
+                        plus_abs += [cs + p_ for p_ in plus]
+                        self.emit(")")
+                    if i < nfl - 1:
+                        self.emit("," + self.nl + ind)
+                if not plus_abs:
+                    self.emit("," + self.nl + ind + "fl(")
+                    body, plus = self.pysum(1)
+                    cs = self.emit(body)
+                    plus_abs += [cs + p_ for p_ in plus]
+                    self.emit(")")
+                self.emit(r.choice(["", " ", self.nl, self.nl + " " * 8, self.nl + " " * 16, "  " + self.nl + self.nl + " " * 12,
+                                    " " * 20]))
             else:
-                body, plus = self.pysum(fl, cont_indent="     ")
+                names = [r.choice(FILTERS) for _ in range(r.randint(0, 2))]
+                pre = "".join(n_ + ", " for n_ in names)
+                self.emit(pre)
+                fl = r.choice([1, 1, 2])
+                body, plus = self.pysum(fl, cont_indent="     ") if fl > 1 else self.pysum(1)
                 self.emit("fl(")
                 cs = self.n
                 self.emit(body + ")")
-            self.emit(r.choice(["", " ", self.nl + " "]))
+                plus_abs = [cs + p_ for p_ in plus]
+                self.emit(r.choice(["", " ", self.nl + " ", self.nl + " " * 14]))
             fend = self.n
             self.py.append({"label": "filter", "node_start": start, "code_start": fstart, "code_end": fend,
-                            "plus": [cs + p for p in plus], "bar": bar})
+                            "plus": plus_abs, "bar": bar})
         close = self.emit("}")
         self.exprs.append({"start": start, "close": close, "bar": bar})
 
